@@ -45,6 +45,8 @@ def run(ctx, replay):
                 per[k] = per.get(k, 0) + 1
                 keep.append(c)
         cases = keep
+    for i, c in enumerate(cases):
+        c["rot"] = i * 7 + ctx.seed
     traces, sums = vlib.drive_cases(ctx, "c01", cases, nchunks=16)
     n, bad = vlib.judge(ctx, "Trace_Verify", traces)
     vlib.report_bad(ctx, bad, sig, desc, lambda ev: {"cases": [ev["c"]], "event": {k: ev[k] for k in ev if k != "c"}},
